@@ -271,9 +271,9 @@ Proof.
     + inversion H. split; reflexivity.
 Qed.
 
-Lemma inner_binner : forall g, inner g -> forall ok, binner ok g.
+Lemma inner_binner : forall g, inner g -> forall s, binner s g.
 Proof.
-  intros g Hg. induction Hg as [| t r Hpl Hr IHr | o g c r Ho Hg IHg Hc Hr IHr]; intros ok.
+  intros g Hg. induction Hg as [| t r Hpl Hr IHr | o g c r Ho Hg IHg Hc Hr IHr]; intros s.
   - apply bi_nil.
   - apply bi_plain; [exact Hpl | apply IHr].
   - apply bi_group; [exact Ho | apply IHg | exact Hc | apply IHr].
@@ -292,21 +292,24 @@ Proof.
   - apply bgroups_more; [apply group_bgroup; exact Hg | exact IHr].
 Qed.
 
-(* leaving a parenthesis opened before ts: ts splits at the matching close parenthesis; the walk goes on with
-   less fuel and the flag cleared *)
-Lemma bwalk_split : forall n f ts d ok,
-  f <= n -> bwalk f ts (S d) ok = true ->
-  exists g c r f', f' < f /\ ts = g ++ c :: r /\ is_rparen c = true /\ binner ok g /\ bwalk f' r d false = true.
+(* leaving a parenthesis opened before ts (the enclosing depth's state s' on top of the stack): ts splits at the
+   matching close parenthesis; the walk goes on with less fuel, the rest of the stack and the state s'.
+   after_group and bstep_plain are never unfolded. *)
+Lemma bwalk_split : forall n f ts s' st s,
+  f <= n -> bwalk f ts (s' :: st) s = true ->
+  exists g c r f', f' < f /\ ts = g ++ c :: r /\ is_rparen c = true /\ binner s g /\ bwalk f' r st s' = true.
 Proof.
-  induction n as [| n IHn]; intros f ts d ok Hf Hw.
+  induction n as [| n IHn]; intros f ts s' st s Hf Hw.
   - destruct f as [| f0]; [| lia]. simpl in Hw. discriminate.
   - destruct f as [| f0]; [simpl in Hw; discriminate |].
     assert (Hf0 : f0 <= n) by lia.
     cbn [bwalk] in Hw.
-    destruct ts as [| t r]; [simpl in Hw; discriminate |].
+    destruct ts as [| t r]; [discriminate |].
     destruct (is_lparen t) eqn:Hl.
-    { destruct (IHn f0 r (S d) true Hf0 Hw) as (g1 & c1 & r1 & f1 & Hf1 & Er & Hc1 & Hg1 & Hw1).
-      destruct (IHn f1 r1 d false) as (g2 & c2 & r2 & f2 & Hf2 & Er1 & Hc2 & Hg2 & Hw2); [lia | exact Hw1 |].
+    { destruct (IHn f0 r (after_group s) (s' :: st) BSafe Hf0 Hw)
+        as (g1 & c1 & r1 & f1 & Hf1 & Er & Hc1 & Hg1 & Hw1).
+      destruct (IHn f1 r1 s' st (after_group s)) as (g2 & c2 & r2 & f2 & Hf2 & Er1 & Hc2 & Hg2 & Hw2);
+        [lia | exact Hw1 |].
       exists (t :: g1 ++ c1 :: g2), c2, r2, f2. split; [lia |]. split; [| split; [| split]].
       - subst r r1. simpl. rewrite <- app_assoc. reflexivity.
       - exact Hc2.
@@ -316,19 +319,19 @@ Proof.
     { exists [], t, r, f0. split; [lia |]. split; [reflexivity |]. split; [exact Hr |].
       split; [apply bi_nil | exact Hw]. }
     destruct (is_lbrace t) eqn:Hlb.
-    { destruct ok; cbn [andb negb Nat.eqb] in Hw; [| discriminate].
+    { destruct s; try discriminate Hw.
       destruct (take_plain r) as [flat rest] eqn:Htp.
       apply take_plain_spec in Htp. destruct Htp as [Er Hflat].
       destruct rest as [| c0 r2]; [discriminate |].
       destruct (is_rbrace c0) eqn:Hrb; [| discriminate].
-      destruct (IHn f0 r2 d true Hf0 Hw) as (g1 & c1 & r1 & f1 & Hf1 & Er2 & Hc1 & Hg1 & Hw1).
+      destruct (IHn f0 r2 s' st BSafe Hf0 Hw) as (g1 & c1 & r1 & f1 & Hf1 & Er2 & Hc1 & Hg1 & Hw1).
       exists (t :: flat ++ c0 :: g1), c1, r1, f1. split; [lia |]. split; [| split; [| split]].
       - subst r r2. simpl. rewrite <- app_assoc. reflexivity.
       - exact Hc1.
       - apply bi_brace; assumption.
       - exact Hw1. }
     destruct (is_rbrace t) eqn:Hrb; [discriminate |].
-    destruct (IHn f0 r d ok Hf0 Hw) as (g1 & c1 & r1 & f1 & Hf1 & Er & Hc1 & Hg1 & Hw1).
+    destruct (IHn f0 r s' st (bstep_plain s t) Hf0 Hw) as (g1 & c1 & r1 & f1 & Hf1 & Er & Hc1 & Hg1 & Hw1).
     exists (t :: g1), c1, r1, f1. split; [lia |]. split; [| split; [| split]].
     + subst r. reflexivity.
     + exact Hc1.
@@ -336,34 +339,34 @@ Proof.
     + exact Hw1.
 Qed.
 
-Lemma bwalk_top_bgroups : forall n f ts ok,
-  f <= n -> bwalk f ts 0 ok = true -> ts = [] \/ bgroups ts.
+Lemma bwalk_top_bgroups : forall n f ts s,
+  f <= n -> bwalk f ts [] s = true -> ts = [] \/ bgroups ts.
 Proof.
-  induction n as [| n IHn]; intros f ts ok Hf Hw.
+  induction n as [| n IHn]; intros f ts s Hf Hw.
   - destruct f as [| f0]; [| lia]. simpl in Hw. discriminate.
   - destruct f as [| f0]; [simpl in Hw; discriminate |].
     cbn [bwalk] in Hw.
     destruct ts as [| t r]; [left; reflexivity |]. right.
     destruct (is_lparen t) eqn:Hl.
-    + destruct (bwalk_split f0 f0 r 0 true) as (g & c & r2 & f1 & Hf1 & Er & Hc & Hg & Hw2); [lia | exact Hw |].
+    + destruct (bwalk_split f0 f0 r (after_group s) [] BSafe)
+        as (g & c & r2 & f1 & Hf1 & Er & Hc & Hg & Hw2); [lia | exact Hw |].
       subst r.
       assert (Hgrp : bgroup (t :: g ++ [c])) by (apply bgroup_intro; assumption).
-      destruct (IHn f1 r2 false) as [E2 | G2]; [lia | exact Hw2 | |].
+      destruct (IHn f1 r2 (after_group s)) as [E2 | G2]; [lia | exact Hw2 | |].
       * subst r2. apply bgroups_one. exact Hgrp.
       * replace (t :: g ++ c :: r2) with ((t :: g ++ [c]) ++ r2).
         -- apply bgroups_more; assumption.
         -- simpl. rewrite <- app_assoc. reflexivity.
     + destruct (is_rparen t); [discriminate |].
-      destruct (is_lbrace t).
-      * rewrite andb_false_r in Hw. discriminate.
-      * destruct (is_rbrace t); discriminate.
+      destruct (is_lbrace t); [discriminate |].
+      destruct (is_rbrace t); discriminate.
 Qed.
 
 Lemma bgroups_b_sound : forall ts, bgroups_b ts = true -> bgroups ts.
 Proof.
   intros ts H. unfold bgroups_b in H.
   destruct ts as [| t r]; [discriminate |].
-  destruct (bwalk_top_bgroups (S (length (t :: r))) (S (length (t :: r))) (t :: r) true) as [E | G];
+  destruct (bwalk_top_bgroups (S (length (t :: r))) (S (length (t :: r))) (t :: r) BSafe) as [E | G];
     [lia | exact H | discriminate | exact G].
 Qed.
 
